@@ -143,12 +143,38 @@ class Ctx:
             e.update({k: str(v) for k, v in env.items()})
         t0 = time.time()
         r = TLCResult()
+        raw = self.path("tlc-%d.out" % len(self.tlc_runs))
         try:
-            p = subprocess.run(["timeout", str(int(timeout))] + cmd, cwd=self.specdir, env=e, capture_output=True, text=True)
+            with open(raw, "w") as fo:
+                p = subprocess.run(["timeout", str(int(timeout))] + cmd, cwd=self.specdir, env=e, stdout=fo,
+                                   stderr=subprocess.STDOUT, text=True)
         except OSError as ex:
             raise Infra("cannot run tlc: %s" % ex)
         r.wall = time.time() - t0
-        out = p.stdout + p.stderr
+        # stream the output: JSON cases printed by the spec go to a file (deduplicated), the rest is kept as text
+        r.cases_file = self.path("tlc-%d.cases.ndjson" % len(self.tlc_runs))
+        r.ncases = 0
+        keep, seen = [], set()
+        with open(raw, errors="replace") as fi, open(r.cases_file, "w") as fc:
+            for line in fi:
+                if line.startswith('"{'):
+                    h = hash(line)
+                    if h in seen:
+                        continue
+                    seen.add(h)
+                    try:
+                        fc.write(json.loads(line))
+                        fc.write("\n")
+                        r.ncases += 1
+                    except ValueError:
+                        pass
+                elif not line.startswith(("Parsing file", "Semantic processing", "Linting of")):
+                    keep.append(line)
+                    if len(keep) > 6000:
+                        del keep[:3000]
+        del seen
+        os.remove(raw)
+        out = "".join(keep)
         r.output = out
         shutil.rmtree(meta, ignore_errors=True)
         if p.returncode == 124:
@@ -160,7 +186,7 @@ class Ctx:
             m = re.findall(r"The number of states generated: (\d+)", out)
             if m:
                 r.generated = r.distinct = int(m[-1])
-        r.printed = [l for l in out.splitlines() if l.startswith('"') or l.startswith("<<")]
+        r.printed = [l for l in out.splitlines() if l.startswith("<<")]
         mv = re.search(r"Error: Invariant (\S+) is violated", out) or re.search(r"Error: Action property (\S+) is violated", out) \
             or re.search(r"Error: Temporal properties were violated", out)
         if mv:
@@ -171,7 +197,7 @@ class Ctx:
                 last = blocks[-1]
                 for vm in re.finditer(r"^/\\ (\w+) = (.*?)(?=^/\\ |\Z)", last, re.S | re.M):
                     r.last_state[vm.group(1)] = vm.group(2).strip()
-        elif "No error has been found" in out or (simulate and p.returncode in (0,)):
+        elif "No error has been found" in out or (simulate and p.returncode == 0 and "Error:" not in out):
             r.ok = True
         else:
             r.error = out[-6000:]
